@@ -36,7 +36,23 @@ def corrupt(rng, data):
     if k < 0.62:
         return 'bom', b'\xef\xbb\xbf' + bytes(b)
     if k < 0.67:
-        return 'utf16', data.decode('utf-8', 'replace').encode('utf-16')
+        # UTF-16 with a byte order mark (little / big endian), whole or cut in the middle of a code unit, or with a stray
+        # byte appended; UTF-32; a lone BOM
+        t = data.decode('utf-8', 'replace')
+        enc = rng.choice(['utf-16', 'utf-16', 'utf-16-le', 'utf-16-be', 'utf-32'])
+        raw = t.encode(enc)
+        if enc == 'utf-16-le':
+            raw = b'\xff\xfe' + raw
+        elif enc == 'utf-16-be':
+            raw = b'\xfe\xff' + raw
+        r = rng.random()
+        if r < 0.3 and len(raw) > 3:
+            raw = raw[:rng.randint(2, len(raw) - 1)]
+        elif r < 0.45:
+            raw = raw + rng.choice([b'\n', b'\x00', b'a'])
+        elif r < 0.5:
+            raw = raw[:2] + rng.choice([b'', b'\n', b'\xff'])
+        return 'utf16', raw
     return 'valid', bytes(b)
 
 
